@@ -44,6 +44,7 @@ PROPS = {
         "assumptions": ["requests issued directly on the source (the RPC layer's queueing is C11)", "two channels, one with projectors",
                         "file types compared only while the state is active (STOP leaves the type flags as they were)"],
     },
+    # C08 is overridden by props.d/C08.py (this entry as part 0 + the race-probe part)
     "C08": {
         "pkg": ".", "hdir": "dastard", "harness": DASTARD_COMMON + ["zz_verif_trig_test.go", "zz_verif_c08_test.go"], "test": "TestVerifC08",
         "quick": T(16, 90), "thorough": T(16, 900),
